@@ -17,7 +17,7 @@ class C17(diffprop.Spec):
                   "net.Buffers.WriteTo are modelled (their agreement with the model is part of the differential tie); connection errors are outside this property.")
     rule = ("random (readSize, writeSize) from {0,1,4,16,17,64}x{0,1,2,3,8,16,64,4096}; 2-13 random Write/Writev/Flush ops with payload sizes around the write buffer size (size±2, 0-3, 2*size, "
             "<40) then Flush; then a peer stream of <120 bytes under a random fragmentation read back with buffer sizes from {1,2,3,7,15,16,17,33,64,100}; after every op the delta of bytes "
-            "reaching the in-memory connection is compared; non-trivial = a write/writev of at least one byte or a read; distinct by full line; 1/7 of the payload sizes are drawn from {511,512,513,1023,1024,1025,2048,4097} whatever the buffer size")
+            "reaching the in-memory connection is compared; non-trivial = a write/writev of at least one byte or a read; distinct by full line; 1/7 of the payload sizes are drawn from {511,512,513,1023,1024,1025,2048,4097} whatever the buffer size; 1/3 of the Writev batches have 4-7 buffers; the last inbound fragment arrives together with io.EOF in 1/3 of the cases")
     assumptions = ("the connection accepts every write completely (no short writes / errors)", "bufio minimum reader size 16")
     modelled_not_verified = ("bufio.Writer", "bufio.Reader", "net.Buffers.WriteTo on a non-TCP writer")
 
